@@ -805,6 +805,64 @@ def r17_8(rep: Report, idx: Index, models: dict[str, Model], assoc) -> None:
     rep.extra['bulk_deletes'] = n
 
 
+def r17_10(rep: Report) -> None:
+    """R17.10  replace = look the old row up by the unique value, delete it, create the new row with that value.
+    The lookup key and the value the new row is created with must be ONE expression: when the new row takes its
+    value from somewhere else (an alias field of the form that overrides it) the wrong row is deleted and the
+    insert either meets the old row (unique constraint, 500) or an unrelated row - with everything it owns - is
+    gone.  For every handler function with `v = models.M.get(k=E)`, a deletion of v and a later `models.M(..)`:
+    E, with locals written out, is the `k` the constructor receives (`k=E`, or `**D` with E == D['k'])."""
+    from ..core import subst_locals
+    rid = 'R17.10'
+    n = 0
+    for rel in rep.repo.py_files('dashlive/server/requesthandler'):
+        src = rep.repo.source(rel)
+        if '.get(' not in src or 'delete' not in src:
+            continue
+        for cls_, fn in rep.repo.expanded_functions(rel):
+            order = dfs_order(fn)
+            for a in ast.walk(fn):
+                if not (isinstance(a, ast.Assign) and len(a.targets) == 1 and isinstance(a.targets[0], ast.Name)
+                        and isinstance(a.value, ast.Call) and isinstance(a.value.func, ast.Attribute)
+                        and a.value.func.attr in ('get', 'get_one') and len(a.value.keywords) == 1 and not a.value.args
+                        and (dotted(a.value.func.value) or '').startswith('models.')):
+                    continue
+                model = dotted(a.value.func.value)
+                v, kw, E = a.targets[0].id, a.value.keywords[0].arg, a.value.keywords[0].value
+                deleted = [c for c in ast.walk(fn) if isinstance(c, ast.Call) and order.get(id(c), -1) > order[id(a)] and (
+                    (isinstance(c.func, ast.Attribute) and c.func.attr == 'delete' and any(norm(x) == v for x in c.args))
+                    or (isinstance(c.func, ast.Attribute) and c.func.attr == 'delete' and norm(c.func.value) == v))]
+                ctors = [c for c in ast.walk(fn) if isinstance(c, ast.Call) and dotted(c.func) == model
+                         and order.get(id(c), -1) > order[id(a)]]
+                if not deleted or not ctors:
+                    continue
+                n += 1
+                construct = f'{rel}::{(cls_.name + ".") if cls_ else ""}{fn.name}'
+                key = f'{model}: looked up and created by {kw}'
+                want = norm(subst_locals(fn, E, allow_calls=True))
+                ok_ = True
+                got = ''
+                for c in ctors:
+                    vals = [norm(subst_locals(fn, k.value, allow_calls=True)) for k in c.keywords if k.arg == kw]
+                    for k in c.keywords:
+                        if k.arg is None:
+                            d = norm(k.value)
+                            vals += [f"{d}['{kw}']", f'{d}["{kw}"]', f"{d}.get('{kw}')"]
+                    got = vals[0] if vals else '(not given)'
+                    if want not in vals and norm(E) not in vals:
+                        ok_ = False
+                if ok_:
+                    rep.ok(rid, construct, key, f'both use `{want[:60]}`')
+                else:
+                    rep.fail(rid, construct, key,
+                             f'the row to replace is looked up with `{kw}={want[:70]}` but the new {model.split(".")[-1]} is created '
+                             f'with `{got[:70]}`: when the two differ (an alias field of the request overriding the value) the '
+                             'wrong row is deleted with everything it owns, or the old row stays and the insert violates the '
+                             'unique constraint', a)
+    if n < 1:
+        raise AnalysisError('no replace sequence (get / delete / create of one model) found in the request handlers')
+
+
 def r17_9(rep: Report, idx: Index) -> None:
     """R17.9  the files of a stream live in <blob folder>/<Stream.directory>/; the directory of an existing stream
     row is assigned only on paths that imply the stream owns no media files (`MediaFile.count(stream=s) == 0`,
@@ -881,6 +939,7 @@ def analyse(rep: Report) -> None:
     rep.rule('R17.7', 'rows are looked up by values of the kind the column holds', floor=2)
     rep.rule('R17.8', 'bulk DELETE statements only on models that own nothing and are not referred to', floor=1)
     rep.rule('R17.9', 'the directory of an existing stream changes only while it owns no files', floor=1)
+    rep.rule('R17.10', 'a row that is replaced is looked up by the value its replacement is created with', floor=1)
     idx = Index(rep.repo)
     cg = CallGraph(idx)
     eff = Effects(idx, cg)
@@ -904,3 +963,4 @@ def analyse(rep: Report) -> None:
     r17_7(rep, idx, models)
     r17_8(rep, idx, models, assoc)
     r17_9(rep, idx)
+    r17_10(rep)
